@@ -29,7 +29,7 @@ use std::str::FromStr;
 pub static INFO: PropInfo = PropInfo {
     id: "C18",
     run,
-    rule: "(a) all self- and mutually-recursive shapes over <=2 (quick) / <=3 (thorough) two-qubit one-parameter calibrations GA/GB/GC, each re-invoking one of them (or none) with parameter transform {%t, %t+1, 2*%t, -%t, %t*1, constant}, qubits in order or swapped, variable or fixed qubits, one or two body instructions; (b) random programs from the C17 generator with the 'only higher gates' restriction removed. Every case is classified by the model (finite / repetition / divergent-without-repetition); at most 2 (quick) / 6 (thorough) divergent cases per shard are executed, first; the real expansion runs on a thread with a 256 KiB stack. distinct non-trivial = distinct program whose expansion path reaches depth >= 2 in the model (or is divergent).",
+    rule: "(a) all self- and mutually-recursive shapes over <=2 (quick) / <=3 (thorough) two-qubit one-parameter calibrations GA/GB/GC, each re-invoking one of them (or none) with parameter transform {%t, %t+1, 2*%t, -%t, %t*1, constant}, qubits in order or swapped, variable or fixed qubits, one or two body instructions; (b) random programs from the C17 generator with the 'only higher gates' restriction removed. Every case is classified by the model (finite / repetition / divergent-without-repetition); up to 700 (quick) / 7000 (thorough) divergent cases per shard are executed (the recursive shapes' ones first); the real expansion runs on a thread with a 256 KiB stack. distinct non-trivial = distinct program whose expansion path reaches depth >= 2 in the model (or is divergent).",
     assumptions: &[
         "the expansion runs on a thread with a 256 KiB stack: a divergent expansion exhausts any stack, but on the 8 MiB main-thread stack that takes ~100 s per program (quadratic work per level); programs the model classifies as finite have expansion depth <= 64 and need a few KiB",
         "a stack overflow kills the process and is attributed to the announced case",
@@ -273,8 +273,13 @@ fn run(ctx: &mut Ctx) {
             early.push(classify(c18_shape_text(cals, *fixed, *second), "workload:recursive-shapes"));
         }
     }
-    let cap = tier.pick(2, 6);
+    // Divergent cases used to kill the process (stack overflow) on the unrepaired tree, which is why
+    // they were capped at a handful per shard; with a bounded expansion depth they return an error
+    // quickly, so (nearly) all of them are executed.  The cap only bounds the cost of a tree on which
+    // every one of them crashes again.
+    let cap = tier.pick(400, 4000);
     let mut executed_divergent = 0u64;
+    let mut later_divergent_budget: u64 = tier.pick(300, 3000);
     for c in early.iter().filter(|c| c.class == Class::Divergent).take(cap) {
         executed_divergent += 1;
         execute(ctx, c);
@@ -315,7 +320,12 @@ fn run(ctx: &mut Ctx) {
         }
         let c = classify(c18_shape_text(cals, *fixed, *second), "workload:recursive-shapes");
         tally(&c);
-        if c.class != Class::Divergent {
+        let run_it = c.class != Class::Divergent || later_divergent_budget > 0;
+        if c.class == Class::Divergent && run_it {
+            later_divergent_budget -= 1;
+            executed_divergent += 1;
+        }
+        if run_it {
             execute(ctx, &c);
             if ctx.done() {
                 return;
@@ -329,7 +339,12 @@ fn run(ctx: &mut Ctx) {
         let text = CalibGen::new(&mut rng, cfg).program().text();
         let c = classify(text, "workload:random-unrestricted");
         tally(&c);
-        if c.class != Class::Divergent {
+        let run_it = c.class != Class::Divergent || later_divergent_budget > 0;
+        if c.class == Class::Divergent && run_it {
+            later_divergent_budget -= 1;
+            executed_divergent += 1;
+        }
+        if run_it {
             execute(ctx, &c);
             if ctx.done() {
                 return;
@@ -339,6 +354,6 @@ fn run(ctx: &mut Ctx) {
     for (k, class) in [Class::Finite, Class::Repetition, Class::Divergent, Class::Undecided].iter().enumerate() {
         ctx.count_n(&format!("classified:{}", class.name()), classified[k]);
     }
-    ctx.count_n("divergent-cases-executed (first, capped)", executed_divergent);
+    ctx.count_n("divergent-cases-executed", executed_divergent);
     ctx.count_n("divergent-cases-classified-but-not-executed (cap)", classified[2].saturating_sub(executed_divergent));
 }
